@@ -13,6 +13,7 @@ mod suite_a;
 mod suite_c;
 mod suite_e;
 mod suite_f;
+mod suite_k;
 mod suite_p;
 mod suite_t;
 
@@ -43,6 +44,7 @@ fn main() {
                 "C" => suite_c::gen(&mut rng, &suite_c::Params { cases }),
                 "A" => suite_a::gen(&mut rng, &suite_a::Params { cases }),
                 "E" | "L" => suite_e::gen(&mut rng, &suite_e::Params { cases, max_ops }),
+                "K" => suite_k::gen(&mut rng, &suite_k::Params { cases, max_ops }),
                 "F" => suite_f::gen(&mut rng, &suite_f::Params { cases }),
                 "P" => suite_p::gen(&mut rng, &suite_p::Params { cases, big: max_ops }),
                 _ => {
@@ -68,6 +70,7 @@ fn main() {
                 "A" => suite_a::exec(&lines, &mut out, &scratch),
                 "P" => suite_p::exec(&lines, &mut out),
                 "F" => suite_f::exec(&lines, &mut out, &scratch),
+                "K" => suite_k::exec(&lines, &mut out, &scratch),
                 "E" => suite_e::exec(&lines, &mut out, &scratch),
                 "L" => suite_e::exec_locks(&lines, &mut out, &scratch, &out_dir),
                 _ => {
